@@ -140,6 +140,47 @@ def reachable(g):
     return seen
 
 
+def later_inputs(g):
+    """history on the SAME graph object after it has been inferred: a new Input with an untyped branch is added in place (and
+    a former Input is replaced by an ordinary node); inference must follow the graph as it is now"""
+    import nir
+    try:
+        with quiet():
+            _ = g.inputs, g.outputs
+            olds = [k for k, n in g.nodes.items() if type(n).__name__ == "Input" and tval(n.input_type, "input") not in ("none", "other")]
+            if olds:
+                k = olds[0]
+                g.nodes[k] = nir.Scale(scale=np.ones(tuple(int(x) for x in tval(g.nodes[k].input_type, "input")), dtype="float32"))
+            g.nodes["late in"] = nir.Input(np.array([2, 3]))
+            g.nodes["late fl"] = nir.Flatten(input_type=None, start_dim=0, end_dim=-1)
+            g.nodes["late out"] = nir.Output(output_type=None)
+            g.edges.extend([("late in", "late fl"), ("late fl", "late out")])
+    except BaseException as e:  # noqa: BLE001
+        return f"adding nodes and edges in place raised {type(e).__name__}: {e}"
+    types0 = types_of(g)
+    reach = reachable(g)
+    raised = False
+    try:
+        with time_limit(10), quiet():
+            g.infer_types()
+    except Timeout:
+        return "infer_types() did not terminate within 10 s after nodes were added in place"
+    except BaseException:  # noqa: BLE001
+        raised = True
+    t1 = types_of(g)
+    for name in g.nodes:
+        if name not in reach and t1[name] != types0[name]:
+            return (f"after an Input was replaced / added in place on an already inferred graph: node {name} is not reachable from "
+                    f"any current Input but its types changed")
+    if not raised:
+        for name in ("late fl", "late out"):
+            n = g.nodes[name]
+            if tval(n.input_type, "input") != [2, 3] and name == "late fl" or tval(n.output_type, "output") != [6]:
+                return (f"an Input with an untyped branch was added in place to an already inferred graph; infer_types() returned "
+                        f"normally but {name} has types {tval(n.input_type, 'input')} -> {tval(n.output_type, 'output')}")
+    return None
+
+
 def run(c):
     r = V.dec_recipe(c["recipe"])
     b = try_build(r)
@@ -192,11 +233,12 @@ def run(c):
         if raised[1] or t_after[1] != t_after[0]:
             fail = "a second infer_types() changed types (or raised) after a successful first one"
     res = ("ok", g, raised[times - 1], None)
+    term_now = (cinfer(r, res, twice=c["twice"]) if c.get("consistent")
+                else cinfer_frame(r, res, twice=c["twice"], raised_any=any(raised[:times])))
+    if not fail:
+        fail = later_inputs(g)
     # consistent graphs: exact comparison of all types; arbitrary graphs: frame + definedness only (which type
     # wins on an inconsistent edge depends on the scheduling order, which C10 does not constrain)
-    if c.get("consistent"):
-        coq = cinfer(r, res, twice=c["twice"])
-    else:
-        coq = cinfer_frame(r, res, twice=c["twice"], raised_any=any(raised[:times]))
+    coq = term_now
     has_cycle = any(a == b2 for a, b2 in g.edges) or len(set(g.edges)) < len(g.edges) or len(reach) < len(g.nodes)
     return Outcome(coq, fail, has_cycle, repr(c["recipe"]))
